@@ -562,10 +562,17 @@ def sd12(F, R):
     for fn in F.fns:
         if not fn.npath.startswith("sdcard::") or fn.npath.startswith("sdcard::proto::test"):
             continue
-        for (h, body, backs) in fn.loops():
-            # iterator-driven?
+        all_loops = fn.loops()
+        for (h, body, backs) in all_loops:
+            # iterator-driven?  (only by an iterator advanced in this loop itself, not in a loop nested inside it)
             kind = None
+            inner = set()
+            for (h2, body2, backs2) in all_loops:
+                if h2 != h and h2 in body and set(body2) <= set(body):
+                    inner |= set(body2)
             for b in body:
+                if b in inner:
+                    continue
                 t = fn.term(b)
                 if t["k"] == "Call" and (callee_of(t) or "").endswith("Iterator::next"):
                     full = t.get("callee_full", "")
